@@ -92,6 +92,9 @@ func (c *SConf) Coq() string {
 	if c.Kind == "memtls" {
 		kind = "(TTcp true)"
 	}
+	if c.Kind == "multi" {
+		kind = "TMulti"
+	}
 	return coqfmt.Record("sc_comp", coqfmt.Strs(c.Comp), "sc_enc", coqfmt.Strs(c.Enc), "sc_schemes", coqfmt.Strs(c.Schemes),
 		"sc_kind", kind, "sc_tls_ok", coqfmt.Bool(c.TLSOk), "sc_sid", coqfmt.Str("SID"))
 }
@@ -754,8 +757,188 @@ func (c *rawClient) line(in CIn) []byte {
 	return append(b, '\n')
 }
 
+// runMulti plays the script over a transport pair that can switch both compression and encryption (build-tag hook
+// VerifMultiTransportPair): the peer speaks through the client end with real Session envelopes and applies every
+// confirmed pair on its own end, as a cooperative client does.
+func (s *scriptServer) runMulti(script []CIn) *SObs {
+	ct, st := lime.VerifMultiTransportPair(4)
+	s.mu.Lock()
+	s.calls = nil
+	s.round = map[string]int{}
+	s.cur = st
+	s.mu.Unlock()
+	var mu sync.Mutex
+	var wire []WEv
+	sid := ""
+	eof := false
+	last := time.Now()
+	ctx, cancel := context.WithCancel(context.Background())
+	defer cancel()
+	go func() {
+		for {
+			e, err := ct.Receive(ctx)
+			mu.Lock()
+			last = time.Now()
+			if err != nil {
+				eof = true
+				mu.Unlock()
+				return
+			}
+			ses, ok := e.(*lime.Session)
+			if !ok {
+				mu.Unlock()
+				continue
+			}
+			if sid == "" && ses.ID != "" {
+				sid = ses.ID
+			}
+			x := SSes{State: string(ses.State), Enc: string(ses.Encryption), Comp: string(ses.Compression), ReadUnder: string(ct.Encryption())}
+			if ses.ID == sid && sid != "" {
+				x.ID = "SID"
+			} else {
+				x.ID = "other:" + ses.ID
+			}
+			x.FromOK = ses.From == serverNode
+			for _, o := range ses.EncryptionOptions {
+				x.EncOpts = append(x.EncOpts, string(o))
+			}
+			for _, o := range ses.CompressionOptions {
+				x.CompOpts = append(x.CompOpts, string(o))
+			}
+			for _, o := range ses.SchemeOptions {
+				x.SchemeOpts = append(x.SchemeOpts, string(o))
+			}
+			if ses.To != (lime.Node{}) {
+				t := tokenOfName(ses.To.Name)
+				x.To = &t
+			}
+			if ses.Authentication != nil {
+				v := 9999
+				if p, ok := ses.Authentication.(*lime.PlainAuthentication); ok {
+					if n, err := strconv.Atoi(strings.TrimPrefix(p.Password, "rt")); err == nil {
+						v = n
+					}
+				}
+				x.Round = &v
+			}
+			x.Reason = ses.Reason != nil
+			wire = append(wire, WEv{Ses: &x})
+			confirm := ses.State == lime.SessionStateNegotiating && len(ses.EncryptionOptions) == 0 && ses.Encryption != ""
+			mu.Unlock()
+			if confirm {
+				// apply the confirmed pair, compression first
+				if ses.Compression != ct.Compression() {
+					_ = ct.SetCompression(ctx, ses.Compression)
+				}
+				if ses.Encryption != ct.Encryption() {
+					_ = ct.SetEncryption(ctx, ses.Encryption)
+				}
+			}
+		}
+	}()
+	s.l.ch <- st
+	settle := func() {
+		waitUntil(250*time.Millisecond, func() bool {
+			mu.Lock()
+			defer mu.Unlock()
+			s.mu.Lock()
+			n := len(s.calls)
+			s.mu.Unlock()
+			_ = n
+			return eof || time.Since(last) > 3*time.Millisecond
+		})
+	}
+	mu.Lock()
+	last = time.Now()
+	mu.Unlock()
+	settle()
+	for _, in := range script {
+		mu.Lock()
+		over := eof
+		cursid := sid
+		mu.Unlock()
+		if over {
+			break
+		}
+		inCopy := in
+		mu.Lock()
+		wire = append(wire, WEv{Took: true, In: &inCopy})
+		last = time.Now()
+		mu.Unlock()
+		s.record(SCall{Kind: "took", In: &inCopy})
+		if in.Kind == "eof" {
+			_ = ct.Close()
+			waitUntil(250*time.Millisecond, func() bool { return servingGoroutines() == 0 })
+			break
+		}
+		var env interface{ GetID() string }
+		_ = env
+		sctx, sc := context.WithTimeout(ctx, time.Second)
+		switch in.Kind {
+		case "data":
+			m := &lime.Message{Envelope: lime.Envelope{ID: "d1", To: serverNode}}
+			m.SetContent(lime.TextDocument("hello"))
+			_ = ct.Send(sctx, m)
+		case "bad":
+			// nothing undecodable can be said through a typed transport: a session with an unknown state comes closest
+			_ = ct.Send(sctx, &lime.Session{Envelope: lime.Envelope{ID: "5"}, State: lime.SessionState("bogus-state")})
+		default:
+			cs := in.Ses
+			ses := &lime.Session{State: lime.SessionState(cs.State)}
+			switch cs.ID {
+			case "":
+			case "SID":
+				ses.ID = cursid
+				if cursid == "" {
+					ses.ID = "no-session-id-seen-yet"
+				}
+			default:
+				ses.ID = cs.ID
+			}
+			ses.Encryption = lime.SessionEncryption(cs.Enc)
+			ses.Compression = lime.SessionCompression(cs.Comp)
+			ses.Scheme = lime.AuthenticationScheme(cs.Scheme)
+			if cs.Cred != nil {
+				cred := fmt.Sprintf("c%d", *cs.Cred)
+				switch cs.Scheme {
+				case "plain":
+					ses.Authentication = &lime.PlainAuthentication{Password: cred}
+				case "key":
+					ses.Authentication = &lime.KeyAuthentication{Key: cred}
+				case "guest":
+					ses.Authentication = &lime.GuestAuthentication{}
+				}
+			}
+			if cs.From != 0 {
+				ses.From = lime.ParseNode(clientNode(cs.From))
+			}
+			_ = ct.Send(sctx, ses)
+		}
+		sc()
+		settle()
+	}
+	obs := &SObs{}
+	waitUntil(20*time.Millisecond, func() bool { return servingGoroutines() == 0 })
+	obs.Closed = !st.Connected() || !ct.Connected()
+	obs.Ended = servingGoroutines() == 0
+	mu.Lock()
+	obs.Wire = append([]WEv(nil), wire...)
+	mu.Unlock()
+	s.mu.Lock()
+	obs.Calls = append([]SCall(nil), s.calls...)
+	s.cur = nil
+	s.mu.Unlock()
+	_ = ct.Close()
+	waitUntil(500*time.Millisecond, func() bool { return servingGoroutines() == 0 })
+	_ = st.Close()
+	return obs
+}
+
 // run plays the script against the server on a fresh connection.
 func (s *scriptServer) run(script []CIn) *SObs {
+	if s.conf.Kind == "multi" {
+		return s.runMulti(script)
+	}
 	s.runs++
 	if s.runs%6 == 1 {
 		s.decoy()
